@@ -122,7 +122,7 @@ impl SimProp for C14 {
             real_components: SIM_REAL.to_vec(),
             stubbed_components: SIM_STUB.to_vec(),
             totality: false,
-            cpu_limit_s: crate::sup::CASE_CPU_LIMIT_S,
+            cpu_limit_s: 10,
             exhaustive: false,
         }
     }
@@ -305,7 +305,7 @@ impl SimProp for C15 {
             real_components: SIM_REAL.to_vec(),
             stubbed_components: SIM_STUB.to_vec(),
             totality: false,
-            cpu_limit_s: crate::sup::CASE_CPU_LIMIT_S,
+            cpu_limit_s: 10,
             exhaustive: false,
         }
     }
@@ -315,12 +315,12 @@ impl SimProp for C15 {
             Tier::Thorough => 4_000_000,
         }
     }
-    fn generate(&self, g: &mut Gen, _tier: Tier) -> SimCase {
+    fn generate(&self, g: &mut Gen, tier: Tier) -> SimCase {
         let n = *g.pick(&[5, 30, 100, 300]);
         // a third of the cases: machines that block and pad with every flag
         // combination (packets held back, replaced, released by bypass)
         let heavy = g.chance(0.35);
-        gen_sim_case(g, n, false, &|g, mc| {
+        let tweak = |g: &mut Gen, mc: &mut crate::mach::MachCfg| {
             if heavy {
                 mc.action_w = [1, 1, 5, 5, 1];
                 mc.times_us = vec![0.0, 1.0, 10.0, 100.0, 1000.0, 5000.0, 20000.0];
@@ -329,7 +329,10 @@ impl SimProp for C15 {
                 mc.pad_budgets = vec![u64::MAX];
                 mc.fracs = vec![0.0];
             }
-        })
+        };
+        let mut c = gen_sim_case(g, n, false, &tweak);
+        maybe_deepen(g, tier, &mut c, &tweak);
+        c
     }
     fn check(&self, case: &SimCase, stats: &mut Stats) -> Vec<(String, String)> {
         let out = match run_sim(case) {
@@ -498,7 +501,7 @@ impl SimProp for C19 {
             real_components: SIM_REAL.to_vec(),
             stubbed_components: SIM_STUB.to_vec(),
             totality: true,
-            cpu_limit_s: crate::sup::CASE_CPU_LIMIT_S,
+            cpu_limit_s: 10,
             exhaustive: false,
         }
     }
@@ -508,12 +511,13 @@ impl SimProp for C19 {
             Tier::Thorough => 1_500_000,
         }
     }
-    fn generate(&self, g: &mut Gen, _tier: Tier) -> SimCase {
+    fn generate(&self, g: &mut Gen, tier: Tier) -> SimCase {
         let n = *g.pick(&[5, 30, 100, 300]);
         let mut c = gen_sim_case(g, n, true, &|_, _| {});
         if g.chance(0.4) {
             c.pps = Some(*g.pick(&[1, 2, 5, 10, 100, 1000, 10_000]));
         }
+        maybe_deepen(g, tier, &mut c, &|_, _| {});
         c
     }
     fn check(&self, case: &SimCase, stats: &mut Stats) -> Vec<(String, String)> {
